@@ -123,6 +123,65 @@ func TestC05Heavy(t *testing.T) {
 			return []types.V2Transaction{a, b}
 		})
 	}
+	// re-broadcasting sets that contain an already pooled heavy parent must not
+	// make the pool believe it is full: everything accepted stays retrievable
+	for _, nchild := range []int{8, 16, 30} {
+		nchild := nchild
+		run2 := func() {
+			hc := hcase{"rebroadcast-known-heavy-parent", nchild}
+			tr := kit.BuildTree(tc)
+			node, err := kit.NewNode(tr, "mem")
+			if err != nil {
+				t.Fatal(err)
+			}
+			defer node.Close()
+			for _, n := range tr.Nodes {
+				if err := node.Submit([]types.Block{n.Block}); err != nil {
+					t.Fatalf("INFRA: %v", err)
+				}
+			}
+			tip := tr.Nodes[len(tr.Nodes)-1]
+			cs := &kit.CaseStats{}
+			cs.NonTrivial()
+			cs.Class("heavy:" + hc.Family)
+			parent, ok := heavyTxn(tip, 0, 0, maxW*3/4, types.Siacoins(1))
+			if !ok {
+				t.Fatalf("INFRA: cannot size parent")
+			}
+			var cerr error
+			var ids []types.TransactionID
+			var children []types.V2Transaction
+			ids = append(ids, parent.ID())
+			for i := 0; i < nchild && cerr == nil; i++ {
+				bb := kit.NewBlockBuilder(tip.Ledger)
+				bb.Absorb(nil, append([]types.V2Transaction{parent}, children...))
+				bb.DropEphemeral()
+				if !bb.Add(kit.Intent{Kind: "v2pay", Who: 1 + i%3, To: 0, Pick: i / 3, Amt: i % 9, Fee: true, A: i}) {
+					break
+				}
+				child := bb.V2Txns[0]
+				children = append(children, child)
+				if _, err := node.CM.AddV2PoolTransactions(tip.Index(), []types.V2Transaction{parent, child}); err != nil {
+					cerr = fmt.Errorf("%+v: set [known heavy parent, fresh child %d] rejected: %v", hc, i, err)
+					break
+				}
+				ids = append(ids, child.ID())
+				for _, id := range ids {
+					if _, ok := node.CM.V2PoolTransaction(id); !ok {
+						cerr = fmt.Errorf("%+v: after %d re-broadcasts of a set with an already pooled parent, accepted transaction %v is gone although the pool holds about %d%% of its capacity", hc, i+1, id, 100*int(maxW*3/4+uint64(len(ids))*1000)/int(10*maxW))
+						break
+					}
+				}
+			}
+			if cerr == nil {
+				if _, _, perr := checkPoolValid(node, tip.Ledger, 778); perr != nil {
+					cerr = fmt.Errorf("%+v: %w", hc, perr)
+				}
+			}
+			d.Case(hc, cs, cerr)
+		}
+		run2()
+	}
 	for _, n := range []int{11, 13} {
 		n := n
 		run(hcase{"pool-beyond-ten-blocks", n}, func(tip *kit.TNode) []types.V2Transaction {
